@@ -209,9 +209,13 @@ def o182(ctx):
                     stacked=order, names=names)
 
 
-def obligations():
+def _obligations():
     return [
         Obligation("O18.2", "row-space typing, same feature value, tree/query lists, distance/offset scaling, R_a^-1 frame, relative orientation, ids", o182, floor=25),
         Obligation("O18.6", "angular distance is the geodesic distance of SO(3) (shared with C06)", _geom.o62, floor=3),
         Obligation("O18.7", "compare_rotations returns (angular, cone, in-plane) distances (shared with C06)", _geom.o63, floor=40),
     ]
+
+
+def obligations():
+    return _obligations() + [effects_obligation("C18")]
